@@ -5,7 +5,7 @@ import os
 import vcommon as V
 from checks import seqcommon
 
-TRUSTED = ['Lean 4 kernel', 'hand-written models MiVerif/Model/Page.lean and MiVerif/Model/Segment.lean (compared with the real functions after every micro-step, every run)',
+TRUSTED = ['Lean 4 kernel', 'translator extract/translate.py for Gen/Loops.lean (mi_page_free_list_extend, a while loop -> whileN with fuel 2^64; stores as effect log), validated against the running function on every run (harness/c01 ext -> Driver/C01ext)', 'hand-written models MiVerif/Model/Page.lean and MiVerif/Model/Segment.lean (compared with the real functions after every micro-step, every run)',
            'harness/c01.c (direct drive of static functions through #include of src/static.c; abstraction of a page to block indices)',
            'the statement "every public API call is a composition of the modelled micro-steps" is not proved: it is covered by the snapshot validation (PageM.invB on every page of every heap during API histories) and by the shadow oracle harness/seq.c',
            'byte-level contents: the frame argument (writes only to the block being popped / pushed) is checked by the oracle, not proved']
